@@ -358,17 +358,24 @@ class Sigma:
                    fresh=False, label="scenario")
 
     def network_obj(self, I):
+        """the Network object: built by running the REAL Network.__init__ on the symbolic scenario, so fields the
+        code derives from the scenario exist exactly as the code computes them.  Fields that some method other than
+        __init__ writes (hidden mutable state: caches, flags) are then havoced - the contracts speak about an
+        arbitrary point of an arbitrary history, where such a field can hold anything of its kind."""
         netcls = I.repo.cls("nasim.envs.network.Network")
-        return Obj(netcls, {
-            "hosts": self.hosts_dict(I),
-            "host_num_map": self.host_num_map(),
-            "subnets": self.subnets_seq(),
-            "topology": self.topology_seq(),
-            "firewall": self.firewall_dict(),
-            "address_space": self.addr_seq(),
-            "address_space_bounds": (mk(self.B0, "int"), mk(self.B1, "int")),
-            "sensitive_addresses": self.sensitive_seq(),
-        }, fresh=False, label="network")
+        sc = self.scenario_obj(I)
+        from pyvc.interp import PyExc
+        net = Obj(netcls, {}, fresh=True, label="network")
+        mem = I.find_member(netcls, "__init__")
+        I.call_function(mem[1], [net, sc], {})
+        net.fresh = False
+        net.hidden = set()
+        for name in mutable_fields(netcls):
+            if name in net.fields:
+                net.fields[name] = havoc_like(I, net.fields[name], "net_" + name)
+                net.hidden.add(name)
+        I.ctx.writes[:] = [w for w in I.ctx.writes if not (w[0] == "field" and w[1] is net)]
+        return net
 
     # ------------------------------------------------------------------ layout (HostVector class attributes)
     def layout(self):
@@ -582,3 +589,60 @@ def row_spec(sig, i, c):
            z3.If(z3.And(L.srv0 <= c, c < L.proc0), b(sig.srv_of(i, c - L.srv0)),
            z3.If(z3.And(L.proc0 <= c, c < L.W), b(sig.proc_of(i, c - L.proc0)),
                  z3.RealVal(0))))))))
+
+
+_MUT_CACHE = {}
+
+
+def mutable_fields(cls):
+    """names of instance fields that a method other than __init__ assigns or mutates in place
+    (self.x = ..., self.x += ..., self.x[...] = ..., self.x.add/append/update/pop/clear/remove/discard(...))"""
+    import ast
+    if cls.qualname in _MUT_CACHE:
+        return _MUT_CACHE[cls.qualname]
+    out = set()
+    mut = {"add", "append", "update", "pop", "clear", "remove", "discard", "extend", "insert", "setdefault", "popitem"}
+
+    def self_attr(n):
+        return isinstance(n, ast.Attribute) and isinstance(n.value, ast.Name) and n.value.id == "self"
+    for name, fi in cls.methods.items():
+        if name == "__init__":
+            continue
+        for n in ast.walk(fi.node):
+            if isinstance(n, (ast.Assign, ast.AugAssign, ast.AnnAssign)):
+                tg = n.targets if isinstance(n, ast.Assign) else [n.target]
+                for t in tg:
+                    if self_attr(t):
+                        out.add(t.attr)
+                    if isinstance(t, ast.Subscript) and self_attr(t.value):
+                        out.add(t.value.attr)
+            if isinstance(n, ast.Call) and isinstance(n.func, ast.Attribute) and n.func.attr in mut \
+                    and self_attr(n.func.value):
+                out.add(n.func.value.attr)
+    _MUT_CACHE[cls.qualname] = out
+    return out
+
+
+def havoc_like(I, v, base):
+    """an arbitrary value of the same kind as v"""
+    from pyvc.values import PySet
+    if isinstance(v, bool) or (isinstance(v, SymV) and v.ty == "bool"):
+        return SymV(z3.Bool(base), "bool")
+    if isinstance(v, int) or (isinstance(v, SymV) and v.ty == "int"):
+        return SymV(z3.Int(base), "int")
+    if isinstance(v, float) or (isinstance(v, SymV) and v.ty == "real"):
+        return SymV(z3.Real(base), "real")
+    if isinstance(v, (PySet, PyList, PyDict, SymColl)):
+        memb = z3.Function(base + "_has", z3.IntSort(), z3.IntSort(), z3.BoolSort())
+
+        def contains(x):
+            if isinstance(x, tuple) and len(x) == 2:
+                a, b = x
+                ka = nameval(a) if not isinstance(a, tuple) else z3.IntVal(0)
+                kb = ival(b) if not isinstance(b, tuple) else z3.IntVal(0)
+                return memb(ka, kb)
+            return memb(nameval(x) if not isinstance(x, tuple) else z3.IntVal(0), z3.IntVal(0))
+        c = SymColl(contains, base, nonempty=z3.Bool(base + "_nonempty"))
+        c.fresh = False
+        return c
+    return Opaque(base)
